@@ -163,10 +163,33 @@ class Spline:
                 self.arrays[n['name']] = n
         stores = []
         order = [0]
+        temps = {}            # floating locals defined in the current loop body (double h_prev = h[i-1];): expanded in the right-hand sides
+
+        def expand_temps(node):
+            if not temps:
+                return node
+            if node.get('kind') == 'DeclRefExpr' and node['referencedDecl'].get('name') in temps:
+                t_ = temps[node['referencedDecl']['name']]
+                return {'kind': 'ParenExpr', 'type': node.get('type'), 'range': node.get('range'), 'inner': [t_]}
+            if 'inner' not in node:
+                return node
+            out = dict(node)
+            out['inner'] = [expand_temps(c) if isinstance(c, dict) else c for c in node['inner']]
+            return out
 
         def visit(n, loop):
             k = n.get('kind')
+            if k == 'DeclStmt' and loop is not None:
+                for vd in kids(n):
+                    if vd.get('kind') == 'VarDecl' and kids(vd) and fe.is_float_type(vd):
+                        temps[vd['name']] = expand_temps(kids(vd)[-1])
+                return
+            if k == 'BinaryOperator' and n.get('opcode') == '=' and loop is not None and strip(kids(n)[0]).get('kind') == 'DeclRefExpr' and \
+                    fe.is_float_type(strip(kids(n)[0])) and not self.store_target(n):
+                temps[strip(kids(n)[0])['referencedDecl'].get('name')] = expand_temps(kids(n)[1])
+                return
             if k == 'ForStmt':
+                temps.clear()
                 lp = self.loop_of(n, self.ienv)
                 init, cond, inc, body = flow.for_parts(n)
                 if lp is None:
@@ -176,6 +199,7 @@ class Spline:
                         if self.store_target(x):
                             raise Unsupported('array store in a nested loop at %s' % self.where(f, x))
                 visit(body, lp)
+                temps.clear()
                 return
             if k in ('WhileStmt', 'DoStmt', 'IfStmt', 'SwitchStmt'):
                 for x in walk(n):
@@ -195,7 +219,7 @@ class Spline:
                     if tg is None:
                         raise Unsupported('chained assignment with a non-array target at %s' % self.where(f, n))
                     order[0] += 1
-                    stores.append(Store(tg[0], tg[1], cur, loop, n, order[0]))
+                    stores.append(Store(tg[0], tg[1], expand_temps(cur), loop, n, order[0]))
                 return
             for c in kids(n):
                 visit(c, loop)
@@ -330,6 +354,12 @@ class Spline:
 
     def fail(self, rule, construct, node, msg, witness=None):
         f = self.f
+        import re as _re
+        if _re.search(r'\$[A-Za-z_]', msg):
+            # the expressions compared contain a scalar local the algebra could not resolve to cells (`$name`): no verdict
+            self.chk.instance(rule, '%s %s' % (self.where(f, node) if node is not None else f.where, msg[:200]), 'undecided')
+            self.chk.broke('%s (%s): a scalar local could not be resolved to cells of the input, the comparison is not decided: %s' % (rule, f.name, msg[:160]))
+            return
         self.chk.instance(rule, '%s %s' % (self.where(f, node) if node is not None else f.where, msg), 'refuted')
         self.chk.violation(Finding(rule, rel(f.file), f.name, construct, self.where(f, node) if node is not None else f.where,
                                    '%s: %s' % (f.name, msg), witness=witness))
